@@ -140,12 +140,15 @@ type writeMerge struct {
 func (db *DB) unlockWrite(overflow bool, merged int, err error) {
 	for i := 0; i < merged; i++ {
 		db.writeAckC <- err
+		verifAt("w.ack")
 	}
 	if overflow {
 		// Pass lock to the next write (that failed to merge).
+		verifAt("w.handoff")
 		db.writeMergedC <- false
 	} else {
 		// Release lock.
+		verifAt("w.release")
 		<-db.writeLockC
 	}
 }
@@ -155,6 +158,7 @@ func (db *DB) writeLocked(batch, ourBatch *Batch, merge, sync bool) error {
 	// Try to flush memdb. This method would also trying to throttle writes
 	// if it is too fast and compaction cannot catch-up.
 	mdb, mdbFree, err := db.flush(batch.internalLen)
+	verifAt("w.flushed", batch, err)
 	if err != nil {
 		db.unlockWrite(false, 0, err)
 		return err
@@ -188,6 +192,7 @@ func (db *DB) writeLocked(batch, ourBatch *Batch, merge, sync bool) error {
 					// Merge batch.
 					if incoming.batch.internalLen > mergeLimit {
 						overflow = true
+						verifAt("w.overflow", incoming.batch, incoming.key)
 						break merge
 					}
 					batches = append(batches, incoming.batch)
@@ -197,6 +202,7 @@ func (db *DB) writeLocked(batch, ourBatch *Batch, merge, sync bool) error {
 					internalLen := len(incoming.key) + len(incoming.value) + 8
 					if internalLen > mergeLimit {
 						overflow = true
+						verifAt("w.overflow", incoming.batch, incoming.key)
 						break merge
 					}
 					if ourBatch == nil {
@@ -211,6 +217,7 @@ func (db *DB) writeLocked(batch, ourBatch *Batch, merge, sync bool) error {
 				}
 				sync = sync || incoming.sync
 				merged++
+				verifAt("w.accept", incoming.batch, incoming.key)
 				db.writeMergedC <- true
 
 			default:
@@ -226,6 +233,7 @@ func (db *DB) writeLocked(batch, ourBatch *Batch, merge, sync bool) error {
 
 	// Seq number.
 	seq := db.seq + 1
+	verifAt("w.group", seq, batchesLen(batches), len(batches), sync)
 
 	// Write journal.
 	if err := db.writeJournal(batches, seq, sync); err != nil {
@@ -242,7 +250,9 @@ func (db *DB) writeLocked(batch, ourBatch *Batch, merge, sync bool) error {
 	}
 
 	// Incr seq number.
+	verifAt("w.applied")
 	db.addSeq(uint64(batchesLen(batches)))
+	verifAt("w.publish", db.seq)
 
 	// Rotate memdb if it's reach the threshold.
 	if batch.internalLen >= mdbFree {
@@ -290,12 +300,14 @@ func (db *DB) Write(batch *Batch, wo *opt.WriteOptions) error {
 	if merge {
 		select {
 		case db.writeMergeC <- writeMerge{sync: sync, batch: batch}:
+			verifAt("w.sent", batch, nil)
 			if <-db.writeMergedC {
 				// Write is merged.
 				return <-db.writeAckC
 			}
 			// Write is not merged, the write lock is handed to us. Continue.
 		case db.writeLockC <- struct{}{}:
+			verifAt("w.lock", batch, nil)
 			// Write lock acquired.
 		case err := <-db.compPerErrC:
 			// Compaction error.
@@ -307,6 +319,7 @@ func (db *DB) Write(batch *Batch, wo *opt.WriteOptions) error {
 	} else {
 		select {
 		case db.writeLockC <- struct{}{}:
+			verifAt("w.lock", batch, nil)
 			// Write lock acquired.
 		case err := <-db.compPerErrC:
 			// Compaction error.
@@ -317,6 +330,7 @@ func (db *DB) Write(batch *Batch, wo *opt.WriteOptions) error {
 		}
 	}
 
+	verifAt("w.leader", batch, nil)
 	return db.writeLocked(batch, nil, merge, sync)
 }
 
@@ -332,12 +346,14 @@ func (db *DB) putRec(kt keyType, key, value []byte, wo *opt.WriteOptions) error 
 	if merge {
 		select {
 		case db.writeMergeC <- writeMerge{sync: sync, keyType: kt, key: key, value: value}:
+			verifAt("w.sent", nil, key)
 			if <-db.writeMergedC {
 				// Write is merged.
 				return <-db.writeAckC
 			}
 			// Write is not merged, the write lock is handed to us. Continue.
 		case db.writeLockC <- struct{}{}:
+			verifAt("w.lock", nil, key)
 			// Write lock acquired.
 		case err := <-db.compPerErrC:
 			// Compaction error.
@@ -349,6 +365,7 @@ func (db *DB) putRec(kt keyType, key, value []byte, wo *opt.WriteOptions) error 
 	} else {
 		select {
 		case db.writeLockC <- struct{}{}:
+			verifAt("w.lock", nil, key)
 			// Write lock acquired.
 		case err := <-db.compPerErrC:
 			// Compaction error.
@@ -362,6 +379,7 @@ func (db *DB) putRec(kt keyType, key, value []byte, wo *opt.WriteOptions) error 
 	batch := db.batchPool.Get().(*Batch)
 	batch.Reset()
 	batch.appendRec(kt, key, value)
+	verifAt("w.leader", nil, key)
 	return db.writeLocked(batch, batch, merge, sync)
 }
 
